@@ -101,6 +101,11 @@ V("c06e-one-statement-step", "C06", "silent",
   (COMBI, "        prod *= n - i\n        prod = prod // (i + 1)\n", "        prod = prod * (n - i) // (i + 1)\n"))
 V("c06e-scalar-wrong-divisor", "C06", {"rule": "C06e", "contains": "comb"},
   (COMBI, "        prod *= n - i\n        prod //= i + 1\n", "        prod *= n - i\n        prod //= i + 2\n"))
+GSTATE = "piquasso/_simulators/gaussian/state.py"
+V("c14d-string-positions-gather-map", "C14", {"rule": "C14d", "contains": "positions-of-other-ordering"},
+  (GSTATE, "        first_order_moments = self.xxpp_mean_vector\n        cov_xxpp = self.xxpp_covariance_matrix\n\n        second_order_moments = cov_xxpp / 2 + 0.5j * hbar * xp_symplectic_form(d)\n\n        return self._string_moment(first_order_moments, second_order_moments, string)", "        first_order_moments = self.xpxp_mean_vector\n        cov_xpxp = self.xpxp_covariance_matrix\n\n        second_order_moments = cov_xpxp / 2 + 0.5j * hbar * symplectic_form(d)\n\n        index_map = xxpp_to_xpxp_indices(d)\n        xpxp_string = [index_map[index] for index in string]\n\n        return self._string_moment(first_order_moments, second_order_moments, xpxp_string)"))
+V("c14d-string-positions-inverse-map", "C14", "silent",
+  (GSTATE, "        first_order_moments = self.xxpp_mean_vector\n        cov_xxpp = self.xxpp_covariance_matrix\n\n        second_order_moments = cov_xxpp / 2 + 0.5j * hbar * xp_symplectic_form(d)\n\n        return self._string_moment(first_order_moments, second_order_moments, string)", "        first_order_moments = self.xpxp_mean_vector\n        cov_xpxp = self.xpxp_covariance_matrix\n\n        second_order_moments = cov_xpxp / 2 + 0.5j * hbar * symplectic_form(d)\n\n        index_map = xpxp_to_xxpp_indices(d)\n        xpxp_string = [index_map[index] for index in string]\n\n        return self._string_moment(first_order_moments, second_order_moments, xpxp_string)"))
 # ------------------------------------------------------------------------------------------- C20
 V("c20-sub-add", "C20", {"rule": "C20c", "contains": "Sub"}, (EXPR, "ast.Sub: op.sub", "ast.Sub: op.add"))
 V("c20-lt-le", "C20", {"rule": "C20c", "contains": "Lt"}, (EXPR, "ast.Lt: op.lt", "ast.Lt: op.le"))
